@@ -114,7 +114,7 @@ func buildScriptX(fr *FuncResult, upto int, goal string, pre string, assumptions
 		if assumptionsOnly && fr.Facts[j].Oblig {
 			continue
 		}
-		if f := fr.Facts[j]; f.Oblig && grp != "" && oblGroup(f.Name) != grp && (strings.Contains(f.Term, "(forall ") || strings.Contains(f.Term, "(exists ")) {
+		if f := fr.Facts[j]; f.Oblig && grp != "" && oblGroup(f.Name) != grp && !strings.HasPrefix(f.Kind, "assert") && !strings.Contains(f.Kind, "lemma") && (strings.Contains(f.Term, "(forall ") || strings.Contains(f.Term, "(exists ")) {
 			// an earlier quantified obligation of another group: proved separately, not needed as a hypothesis here
 			continue
 		}
@@ -168,6 +168,8 @@ func runSolverCtx(parent context.Context, sd solverDef, script string, file stri
 	}
 	return "error", o, el
 }
+
+var portSem = make(chan struct{}, 4)
 
 // solveObligation: portfolio. unsat from any solver discharges; sat from any refutes.
 func solveObligation(fr *FuncResult, idx int, opts SolveOpts, id int) OblResult {
@@ -231,6 +233,9 @@ func solveObligation(fr *FuncResult, idx int, opts SolveOpts, id int) OblResult 
 		st, out, name string
 		el            float64
 	}
+	// at most four portfolios (sixteen solver processes) at a time: wall-clock limits mean little on an overloaded machine
+	portSem <- struct{}{}
+	defer func() { <-portSem }()
 	ctx, cancel := context.WithCancel(context.Background())
 	defer cancel()
 	type att struct {
